@@ -28,7 +28,7 @@ ASSUMPTIONS = ['time.time()/utcnow() read by harness and recorder are the same n
                'sampling rate 1 and no discards so that every run is saved']
 
 T = __import__('playback.tape_recorder', fromlist=['TapeRecorder'])
-KINDS = ('body_raise', 'body_interrupt', 'op_raise', 'op_interrupt', 'extractor', 'body_force')
+KINDS = ('body_raise', 'body_interrupt', 'body_interrupt_swallowed', 'op_raise', 'op_interrupt', 'extractor', 'body_force')
 EPS = 0.002
 
 
